@@ -59,6 +59,9 @@ pub fn contexts(all: bool) -> Vec<Ctx> {
     #[cfg(feature = "crypto")]
     {
         let zoo = load_zoo();
+        // the same name in two roles: an issuer (another key) whose name is the DEFAULT subject name, so that the
+        // default state and everything near it is a certificate whose subject equals its issuer without being self-signed
+        v.push(stub_issuer_ctx(Alg::EcP384, &CertState::default().dn, &KeyIdSpec::Sha256, Alg::Ed25519, "pair"));
         v.push(csr_pub_ctx(&zoo, &issuer_dns()[2], &KeyIdSpec::Sha512));
         v.push(via_csr_ctx(&zoo, KeyKind::Ed25519, Alg::Ed25519, &issuer_dns()[0], &KeyIdSpec::Sha384));
         v.push(via_csr_ctx(&zoo, KeyKind::P384, Alg::EcP384, &issuer_dns()[2], &KeyIdSpec::Pre(vec![3, 3])));
@@ -235,8 +238,8 @@ pub fn run(prop: &str, tier: &str, replay: Option<&str>) -> i32 {
     // C1b. attribute type x string kind x value shape (lengths 0..3, letters / digits / mixed): what a value looks
     // like under a given attribute type never changes the string type the caller chose
     {
-        let types = [DnTypeSpec::C, DnTypeSpec::St, DnTypeSpec::L, DnTypeSpec::O, DnTypeSpec::Ou, DnTypeSpec::Cn, DnTypeSpec::Custom(vec![2, 5, 4, 5]), DnTypeSpec::Custom(vec![1, 2, 840, 113549, 1, 9, 1])];
-        let values = ["", "D", "US", "de", "U1", "12", "USA", "a b", "x@y.z", "1.2.3.4"];
+        let types = [DnTypeSpec::C, DnTypeSpec::St, DnTypeSpec::L, DnTypeSpec::O, DnTypeSpec::Ou, DnTypeSpec::Cn, DnTypeSpec::Custom(vec![2, 5, 4, 5]), DnTypeSpec::Custom(vec![1, 2, 840, 113549, 1, 9, 1]), DnTypeSpec::Custom(vec![0, 9, 2342, 19200300, 100, 1, 25])];
+        let values = ["", "D", "US", "de", "U1", "12", "USA", "a b", "x@y.z", "1.2.3.4", "example"];
         let ctxs = [stub_self_ctx(Alg::Ed25519, 1), stub_issuer_ctx(Alg::EcP256, &DnSpec::cn("issuer"), &KeyIdSpec::Sha256, Alg::Ed25519, "pair")];
         let mut cases: Vec<DnSpec> = Vec::new();
         for t in &types {
